@@ -130,8 +130,20 @@ func ruleOptFlow(rule string) RuleFn {
 			}
 			found := false
 			an.Instrs(fn, func(in ssa.Instruction) {
-				if st, ok := in.(*ssa.Store); ok && strings.HasSuffix(an.Norm(st.Addr), h.addrSuffix) && (an.Norm(st.Val) == h.val || "string("+an.Norm(st.Val)+")" == h.val) {
+				st, ok := in.(*ssa.Store)
+				if !ok || !(an.Norm(st.Val) == h.val || "string("+an.Norm(st.Val)+")" == h.val) {
+					return
+				}
+				if strings.HasSuffix(an.Norm(st.Addr), h.addrSuffix) {
 					found = true
+				}
+				// the literal may live in a named local instead of an anonymous composite literal
+				if strings.HasPrefix(h.addrSuffix, "complit.") {
+					if fa, ok := st.Addr.(*ssa.FieldAddr); ok && an.FieldName(fa.X.Type(), fa.Field) == strings.TrimPrefix(h.addrSuffix, "complit.") {
+						if _, isLocal := fa.X.(*ssa.Alloc); isLocal {
+							found = true
+						}
+					}
 				}
 			})
 			c.Check(found, rule, h.fn+" forwards "+h.val, h.val+" -> "+h.addrSuffix, "the option value "+h.val+" is not forwarded to "+h.addrSuffix+": it silently has no effect on the registration", nil, nil)
